@@ -1473,6 +1473,10 @@ class WcParse(Generic[AnyStr]):
 
                 self.update_dir_state()
 
+            if temp_after_start and self.pathname and not temp_in_list and list_type != '!':
+                # A group that opens a path segment must not match an empty segment (same as `*`).
+                current.append(self.need_char)
+
             if list_type == '?':
                 current.append((_QMARK_CAPTURE_GROUP if self.capture else _QMARK_GROUP).format(''.join(extended)))
             elif list_type == '*':
